@@ -27,6 +27,9 @@ TIERS = {
     "thorough": (2000, 64,      250),
 }
 
+# clock-free deterministic scenarios of the harness, run in both tiers (notes/e2e.md section 4)
+SCENARIOS = ["waiter-owner-cancelled", "waiter-owner-preempted"]
+
 # buggy variants of the model: cfg -> the formula TLC must report as violated
 VACUITY = {
     "EndToEnd_bug_cross_origin.cfg": "Matched",
@@ -216,17 +219,24 @@ def _classify(events, idx, inv):
                 r0 = e.get("r")
                 if r0 is None or r0 == r or e["e"] == "Handle":
                     continue
-                o0 = owners.setdefault(r0, {"origin": None, "h2dial": False, "term": None})
+                o0 = owners.setdefault(r0, {"origin": None, "h2dial": False, "term": None, "dialled": set(), "sent": set()})
                 if e["e"] == "Issue":
                     o0["origin"] = e["origin"]
                 elif e["e"] == "Dial" and e["ver"] == "h2":
                     o0["h2dial"] = True
+                    o0["dialled"].add(e["c"])
+                elif e["e"] == "Send":
+                    o0["sent"].add(e["c"])
                 elif e["e"] in ("Cancel", "Error", "Stuck", "Response"):
                     o0["term"] = e["e"]
             mine_o = issue["origin"] if issue else None
             cands = [o0 for o0 in owners.values() if o0["origin"] == mine_o and o0["h2dial"]]
             if cfg.get("cap") is False and any(o0["term"] == "Cancel" for o0 in cands):
+                # the owner of the HTTP/2 attempt was cancelled by its caller
                 key = "NoSpuriousFailure:pure-waiter-failed(pool-closed)"
+            elif cfg.get("cap") is False and any(o0["sent"] - o0["dialled"] for o0 in cands):
+                # the owner was served by ANOTHER connection (pre-empted by a returned one) and abandoned its dial
+                key = "NoSpuriousFailure:pure-waiter-failed(pool-closed,owner-preempted)"
             elif any(o0["term"] == "Error" for o0 in cands):
                 key = "NoSpuriousFailure:pure-waiter-failed(owner-dial-failed)/%s" % where
             else:
@@ -294,10 +304,11 @@ def run(pid, tier, seed, t0):
             suspects += s["suspects"][:5]
             server_errors += s["server_errors"][:5]
             pending.append((path, s, vex.submit(_validate, pid, path, s, verdict, keys_seen)))
-        # the deterministic scenario (no clocks): owner of an HTTP/2 dial cancelled, cap=false, one waiter
-        spath = os.path.join(d, "scenario-waiter-owner-cancelled.ndjson")
-        sc = _scenario("waiter-owner-cancelled", spath)
-        pending.append((spath, sc, vex.submit(_validate, pid, spath, sc, verdict, keys_seen)))
+        # deterministic scenarios (no clocks): the owner of an HTTP/2 dial is cancelled / pre-empted, cap=false
+        for name in SCENARIOS:
+            spath = os.path.join(d, "scenario-%s.ndjson" % name)
+            sc = _scenario(name, spath)
+            pending.append((spath, sc, vex.submit(_validate, pid, spath, sc, verdict, keys_seen)))
         for path, s, f in pending:
             totals["bad"] += f.result()
             totals["runs_validated"] += s["runs"] * s["repeat"]
